@@ -96,9 +96,17 @@ def dispatch(vm, m, callee, args):
     if mm:
         a, b = deref_val(vm, m, args[0]), deref_val(vm, m, args[1])
         return ret(m, getattr(A, mm.group(1))(a, b))
-    mm = re.match(r'^(?:std|core)::num::<impl (u64|usize|i64|u32)>::(\w+)$', c)
+    mm = re.match(r'^(?:std|core)::num::<impl (u64|usize|i64|u32|i32)>::(\w+)$', c)
     if mm:
         ty, n = mm.groups(); lo, hi = INT_RANGES[ty]; a = args
+        if n == 'abs':
+            if is_sym(a[0]):
+                outs = []
+                for m2, bv in vm.branch(m, a[0] == lo):
+                    if bv: outs.append((m2, 'panic', ('attempt to negate with overflow (abs of MIN)', None, None)))
+                    else: outs.append((m2, 'ret', z3.If(a[0] >= 0, a[0], -a[0])))
+                return outs
+            return ret(m, abs(a[0]))
         if n == 'saturating_sub':
             r = a[0] - a[1]
             if is_sym(r): return ret(m, z3.If(r < lo, z3.IntVal(lo), r))
@@ -211,6 +219,11 @@ def dispatch(vm, m, callee, args):
         a, b = deref_val(vm, m, args[0]), deref_val(vm, m, args[1])
         if isinstance(a, Str) and isinstance(b, Str): return ret(m, a.s == b.s)
         raise Unmodelled('str eq on %r %r' % (a, b))
+    mm = re.match(r'^<(.*) as PartialEq(<.*>)?>::ne$', c)
+    if mm and not re.match(r'^(f64|u64|usize|i64|bool|u32|str|&str)$', mm.group(1)):
+        outs = []
+        for (m2, k, v) in vm.call(m, c[:-2] + 'eq', args): outs.append((m2, k, _not(v) if k == 'ret' else v))
+        return outs
     # ---- Range<u64> iteration ----------------------------------------------------------------------
     if re.match(r'^<std::ops::Range(Inclusive)?<(u64|usize|i64|u32)> as IntoIterator>::into_iter$', c): return ret(m, args[0])
     mm = re.match(r'^<std::ops::Range<(u64|usize|i64|u32)> as Iterator>::next$', c)
